@@ -46,14 +46,15 @@ class KModelOb:
     engine = 'K-model'
 
     def __init__(self, ob_id, unit, harness, desc, extract_fn, bounds, cuts=(), timeout=600, mem_gb=12,
-                 tiers=('quick', 'thorough'), min_covers=1, weight=1):
+                 tiers=('quick', 'thorough'), min_covers=1, weight=1, rustflags=None):
+        self.rustflags = rustflags
         self.ob_id = ob_id; self.unit = unit; self.harness = harness; self.desc = desc
         self.extract_fn = extract_fn; self.bounds = bounds; self.cuts = list(cuts)
         self.timeout = timeout; self.mem_gb = mem_gb; self.tiers = tiers; self.min_covers = min_covers
         self.weight = weight
 
     def kani_cmd(self, info, playback=False):
-        tdir = os.path.join(vlib.scratch(), 'kt', '%s-%s' % (self.unit, self.harness))
+        tdir = os.path.join(vlib.scratch(), 'kt', '%s-%s%s' % (self.unit, self.harness, '-f' if self.rustflags else ''))
         cmd = 'cd %s && cargo kani --harness %s --target-dir %s' % (info['crate'], self.harness, tdir)
         if playback:
             cmd += ' -Z concrete-playback --concrete-playback=print'
@@ -67,7 +68,8 @@ class KModelOb:
         if info['error']:
             r.status = 'INCONCLUSIVE'; r.reason = info['error']; return r
         logf = os.path.join(ctx.logdir, '%s.%s.log' % (ctx.prop, self.ob_id))
-        rc, out, secs = run(self.kani_cmd(info), timeout=self.timeout, mem_gb=self.mem_gb, logfile=logf)
+        env = vlib.env_offline({'RUSTFLAGS': self.rustflags}) if self.rustflags else None
+        rc, out, secs = run(self.kani_cmd(info), timeout=self.timeout, mem_gb=self.mem_gb, logfile=logf, env=env)
         r.secs = secs; r.logfile = logf
         return finish_kani(self, r, ctx, info, rc, out)
 
